@@ -31,6 +31,21 @@ CLAIMED = {
              "U3V layout), extraction cross-checked with vm_compute, driver.ml, rust/h_proto, tools/c09.py.",
         technique="Coq proof (decoder∘encoder = id by induction over entry lists) + model/implementation correspondence",
         design="6/C09"),
+    "C08": dict(
+        text="Coq theorems (props/C08.v): the cursor-style model of AckPacket::parse equals a fixed-offset layout decoder "
+             "for every byte string (Ok iff accepted, all header fields and the raw SCD equal, never Panic); the status "
+             "classifier (namespace bits 14..13, GenCP / USB3 Vision / device-specific tables, fatal bit) and the "
+             "acknowledge-kind table equal the specification on all 65536 codes by complete enumeration inside Coq; the "
+             "typed views agree with the offset spec, stay inside the SCD present, and never panic; every conforming "
+             "acknowledge and every event list (multi- and single-event form) round-trips through the decoder "
+             "(induction over lists); event decoding is total. Two _refuted theorems record the defects of the pinned "
+             "code (repaired by fix: commits). Tied to /repo by running the real decoders and the extracted model on "
+             "exhaustive status codes, windows of scd_len, truncations, mutations and random strings.",
+        note="Trusted: Coq kernel, model/Ack.v + model/Event.v validated by correspondence, spec/GenCPLayout.v (typed from "
+             "the GenCP/U3V layout and code tables), extraction cross-checked with vm_compute, driver.ml, rust/h_proto, "
+             "tools/c08.py (independent Python offset decoder as predicate). Debug-build semantics.",
+        technique="Coq proof (cursor = offset spec; 65536-code enumeration by vm_compute; list induction) + correspondence",
+        design="6/C08"),
 }
 
 ALL = ["C%02d" % i for i in range(1, 21)]
